@@ -715,8 +715,26 @@ def check_dict_declared(ck, prog):
                         continue
                     n += 1
                     rs = ex.strip(r) if r is not None else None
-                    ok = op == "=" and rs is not None and rs.get("k") == "mem" and rs["f"] == "dict_size" and \
-                        (rs.get("rec") or "").startswith("lzma_options_lzma")
+
+                    def is_opt(x, depth=0):
+                        x = ex.strip(x)
+                        if x is None:
+                            return False
+                        if x.get("k") == "mem":
+                            return x["f"] == "dict_size" and (x.get("rec") or "").startswith("lzma_options_lzma")
+                        if x.get("k") == "var" and depth < 2:
+                            defs = []
+                            for b2, i2, e2 in f.iter_elems():
+                                d2 = ex.deref(e2)
+                                if d2.get("k") == "decl" and d2.get("n") == x["n"] and d2.get("init") is not None:
+                                    defs.append(d2["init"])
+                                for (l2, r2, op2, n2) in ex.writes(e2):
+                                    l2s = ex.strip(l2)
+                                    if l2s is not None and l2s.get("k") == "var" and l2s["n"] == x["n"]:
+                                        defs.append(r2 if op2 == "=" else None)
+                            return bool(defs) and all(d is not None and is_opt(d, depth + 1) for d in defs)
+                        return False
+                    ok = op == "=" and is_opt(rs)
                     ck.ob("C02-DICTDECL", "%s:dict_size" % f.name, ok, common.where(f, e),
                           "%s(): lz_options->dict_size = options->dict_size" % f.name if ok else
                           "%s() sets lz_options->dict_size with `%s`: the match finders then search a window that differs from "
